@@ -44,6 +44,15 @@ def run_case(draw):
         for op in api["ops"]:
             op["behaviour"] = "ok"
         return {"api": api, "config": cfg, "stop": stop}
+    if draw(st.integers(0, 5)) == 0:
+        # the limit is one budget for the whole run: one failure met while fuzzing, the others only reachable through links
+        api = draw(runs.api(max_ops=2, links=True))
+        api.update(link_target="500-for-created", link_ops="get+delete", malformed=False, binary_example=False, probe=None)
+        for i, op in enumerate(api["ops"]):
+            op.update(behaviour="500" if i == 0 else "ok", bare=False)
+        cfg = draw(runs.config(phases=["fuzzing", "stateful"]))
+        cfg.update(max_failures=2, checks=["not_a_server_error"], workers=1, modes=["positive"])
+        return {"api": api, "config": cfg, "stop": {"kind": "none"}}
     api = draw(runs.api(max_ops=4))
     cfg = draw(runs.config())
     if draw(st.integers(0, 3)) == 0:
@@ -108,11 +117,13 @@ def check_run(ctx: Ctx, inp) -> None:
     reached = []
     # which phase was running when each request arrived: use the case id -> phase mapping of the recorders
     phase_of_case = {}
+    label_of_case: dict = {}  # "for an operation": two operations of one path send the same unexpected-method request once each
     steps_per_stateful_scenario = []
     for e in finished:
         rec = e["recorder"]
         for cid, case in rec["cases"].items():
             phase_of_case[cid] = e["phase"]
+            label_of_case[cid] = e.get("label")
         if e["phase"] == "STATEFUL_TESTING":
             derived_by_check = {cid for cid, c in rec["cases"].items() if c["parent_id"] is not None and c["transition"] is None}
             steps_per_stateful_scenario.append(len(rec["cases"]) - len(derived_by_check))
@@ -123,7 +134,7 @@ def check_run(ctx: Ctx, inp) -> None:
         if phase == "FUZZING":
             by_op_fuzz.setdefault((req.method, req.path), []).append(req)
         if phase in ("EXAMPLES", "COVERAGE", "FUZZING"):
-            by_op_unit.setdefault((req.method, req.path), []).append(req)
+            by_op_unit.setdefault((label_of_case.get(req.header("X-Schemathesis-TestCaseId")), req.path), []).append(req)
     # (a)
     if "fuzzing" in cfg["phases"] and stop["kind"] == "none":
         for op in api["ops"]:
@@ -180,7 +191,7 @@ def check_run(ctx: Ctx, inp) -> None:
                 reached.append("unique_inputs")
             if len(keys) != len(set(keys)):
                 dup = next(k for k in keys if keys.count(k) > 1)
-                ctx.disagree("duplicate-request-with-unique-inputs", f"{op_key[0]} {op_key[1]}: the request {dup[1]} was sent {keys.count(dup)} times in the unit phases with unique_inputs", input=inp)
+                ctx.disagree("duplicate-request-with-unique-inputs", f"{op_key[0]} ({dup[0]} {op_key[1]}): the request {dup[1]} was sent {keys.count(dup)} times in the unit phases with unique_inputs", input=inp)
     ctx.case(nontrivial=inp if reached else None, classes=[f"reached={r}" for r in sorted(set(reached))] + [f"workers={cfg['workers']}", f"stop={stop['kind']}", "transport-errors" if dropping else "no-transport-errors"], sample={"input": inp, "requests": len(record.requests), "reached": sorted(set(reached))})
 
 
